@@ -1,6 +1,7 @@
 package props
 
 import (
+	"sort"
 	"go/token"
 	"strings"
 
@@ -25,6 +26,8 @@ func c05(c *Ctx) {
 	r.Rule("R05.V", "length validation dominates both block loops; its thresholds are the AES block size", 4)
 	r.Rule("R05.A", "pad-add range: for every residue of the payload length, 0 <= pad <= 15 and (len+pad) % 16 == 0", 2)
 	r.Rule("R05.S", "pad-strip range: every cut point len-p, p in 0..15, is tried and no cut point is negative; the 20-byte hash prefix split is length-guarded", 2)
+	r.Rule("R05.B", "the caller's input buffer is never written: a cipher field that may hold a window of the input during a call is never the destination of xor / copy / the block cipher / an element store in that call (including deferred clean-up)", 2)
+	c05Buffers(c)
 	r.Rule("R05.W", "nonces are converted at fixed width (32 / 16 bytes) before they are mixed into the temp key and IV", 2)
 	r.Rule("R05.K", "temp keys: the tmp_aes_key / tmp_aes_iv expressions extracted from generateTempKeys are the formulas of the key-exchange document", 2)
 	if c.verifySummaries("R05.K") {
@@ -380,5 +383,101 @@ func (c *Ctx) checkEncryptPad(rule string) {
 			}
 			r.Check(len(bad) == 0, rule, "pad:ige.Encrypt", c.pos(size.Pos()), "tabulated for len 0..63: "+strings.Join(bad, ", "))
 		}
+	}
+}
+
+// c05Buffers: R05.B.  Per block-loop method: A = the Cipher fields into which a slice of the input parameter is
+// stored; W = the Cipher fields that are written through (destination of xor, copy, Block.Encrypt/Decrypt, element
+// store) by the method or by the Cipher methods it calls or defers.  A ∩ W must be empty.
+func c05Buffers(c *Ctx) {
+	r := c.R
+	tr := an.NewTracer()
+	for _, name := range []string{"doAES256IGEencrypt", "doAES256IGEdecrypt"} {
+		f := c.fn("R05.B", load.IgePkg, "*Cipher", name)
+		if f == nil {
+			continue
+		}
+		// the method and the *Cipher methods it reaches
+		fns := []*ssa.Function{f}
+		seen := map[*ssa.Function]bool{f: true}
+		for k := 0; k < len(fns); k++ {
+			for _, g := range an.WithAnon(fns[k]) {
+				for _, cs := range an.Calls(g) {
+					callee := an.StaticCallee(cs.Common)
+					if callee == nil || seen[callee] || load.FuncPkgPath(callee) != load.IgePkg || callee.Signature.Recv() == nil {
+						continue
+					}
+					seen[callee] = true
+					fns = append(fns, callee)
+				}
+			}
+		}
+		fieldOf := func(v ssa.Value) string {
+			// load of a field of the receiver
+			if ld, ok := v.(*ssa.UnOp); ok && ld.Op == token.MUL {
+				if fa, ok := ld.X.(*ssa.FieldAddr); ok {
+					n := an.FieldName(fa.X.Type(), fa.Field)
+					if strings.HasPrefix(n, "ige.Cipher.") {
+						return strings.TrimPrefix(n, "ige.Cipher.")
+					}
+				}
+			}
+			return ""
+		}
+		aliased := map[string]string{}
+		written := map[string]string{}
+		for _, g := range fns {
+			for _, b := range g.Blocks {
+				for _, in := range b.Instrs {
+					switch x := in.(type) {
+					case *ssa.Store:
+						if fa, ok := x.Addr.(*ssa.FieldAddr); ok {
+							n := an.FieldName(fa.X.Type(), fa.Field)
+							if strings.HasPrefix(n, "ige.Cipher.") && g == f {
+								if o := tr.OriginString(x.Val); strings.HasPrefix(o, "param#1") {
+									aliased[strings.TrimPrefix(n, "ige.Cipher.")] = c.pos(x.Pos())
+								}
+							}
+						}
+						if ia, ok := x.Addr.(*ssa.IndexAddr); ok {
+							if fl := fieldOf(ia.X); fl != "" {
+								written[fl] = "element store at " + c.pos(x.Pos())
+							}
+						}
+					case ssa.CallInstruction:
+						cn := an.CalleeName(x.Common())
+						args := an.CallArgs(x.Common())
+						dst := -1
+						switch {
+						case cn == load.IgePkg+".xor", cn == "builtin:copy":
+							dst = 0
+						case strings.HasPrefix(cn, "invoke:(crypto/cipher.Block).Encrypt"), strings.HasPrefix(cn, "invoke:(crypto/cipher.Block).Decrypt"):
+							dst = 1
+						}
+						if dst >= 0 && dst < len(args) {
+							v := args[dst]
+							if sl, ok := v.(*ssa.Slice); ok {
+								v = sl.X
+							}
+							if fl := fieldOf(v); fl != "" {
+								written[fl] = shortCallee(cn) + " at " + c.pos(x.Pos())
+							}
+						}
+					}
+				}
+			}
+		}
+		var bad []string
+		for fl, where := range aliased {
+			if w, ok := written[fl]; ok {
+				bad = append(bad, sprintf("c.%s holds a window of the input (stored at %s) and is written by %s", fl, where, w))
+			}
+		}
+		sort.Strings(bad)
+		if len(aliased) == 0 {
+			r.Hold("R05.B", "input-untouched:"+name, c.pos(f.Pos()), "no window of the input is kept in the cipher state")
+			continue
+		}
+		r.Check(len(bad) == 0, "R05.B", "input-untouched:"+name, c.pos(f.Pos()), sprintf("%d field(s) alias the input, %d are written through: %s", len(aliased), len(written), strings.Join(bad, "; ")))
 	}
 }
